@@ -345,6 +345,33 @@ def check_stream(args: tuple[bytes, str, int, int]) -> dict[str, Any]:
     return out
 
 
+def burst_stream(n: int, t: int, ln: int) -> bytes:
+    return b"".join(wire.encode_frame(t, bytes([(i + j) & 0xFF for j in range(ln)])) for i in range(n))
+
+
+# frames per read: one recv() of the selector transport returns up to 256 KiB, and the shortest frame is 3 bytes
+BURST_COUNTS = (2, 8, 64, 500, 990, 1010, 1500, 4096, 20000, 87381)
+
+
+def check_burst(args: tuple[int, int, int]) -> dict[str, Any]:
+    """Many complete frames in ONE read (a stalled event loop, a chatty device): every frame is still handed over in that call."""
+    n, t, ln = args
+    env.load()
+    stream = burst_stream(n, t, ln)
+    label = f"burst({n}x({t},{ln}))"
+    out: dict[str, Any] = {"label": label, "n": len(stream), "evals": 0, "states": 0, "transitions": 0, "viol": None,
+                           "behavioural": 0, "frames": n}
+    flen = len(stream) // n
+    for cuts in ((), (1,), (flen * (n // 2),), (flen * (n // 2) + 1,), (len(stream) - 1,), (flen, len(stream) - flen)):
+        for kind in ("bytes", "memoryview", "bytearray-reused"):
+            out["evals"] += 1
+            v = feed_segments(stream, cuts, (kind,))
+            if v:
+                out["viol"] = {"msg": v[:400], "label": label, "burst": [n, t, ln], "cuts": list(cuts), "kinds": [kind]}
+                return out
+    return out
+
+
 # ------------------------------------------------------------------------------------------------
 def build_streams(tier: str, seed: int) -> list[tuple[bytes, str]]:
     import hashlib
@@ -427,6 +454,9 @@ def run(tier: str, seed: int) -> Result:
     ctx = mp.get_context("fork")
     with ctx.Pool(min(16, os.cpu_count() or 1)) as pool:
         outs = pool.map(check_stream, jobs, chunksize=1)
+        bursts = [(n, t, ln) for n in BURST_COUNTS for t, ln in ((1, 0), (300, 5))]
+        bouts = pool.map(check_burst, bursts, chunksize=1)
+    outs = outs + bouts
     evals = sum(o["evals"] for o in outs)
     states = sum(o["states"] for o in outs)
     trans = sum(o["transitions"] for o in outs)
@@ -446,13 +476,14 @@ def run(tier: str, seed: int) -> Result:
         "transitions": trans,
         "traces_validated_against_impl": evals,
         "evaluations": evals,
-        "streams": len(streams),
+        "streams": len(streams) + len(bursts),
         "streams_with_complete_frames": nontrivial,
         "behavioural_fallbacks": sum(o["behavioural"] for o in outs),
         "longest_stream": max(o["n"] for o in outs),
         "all_segmentations_up_to_len": all_seg_max,
         "max_cuts_direct": max_cuts,
         "chunk_types": list(CHUNK_TYPES),
+        "frames_per_single_read": list(BURST_COUNTS),
         "exhaustive": True,
         "samples": [
             {"stream": lbl, "len": len(s), "cut_set_size": len(cut_set(s))} for s, lbl in streams[:: max(1, len(streams) // 5)]
@@ -469,7 +500,7 @@ def run(tier: str, seed: int) -> Result:
 
 def replay(rp: dict[str, Any]) -> bool:
     d = rp["detail"]
-    stream = bytes.fromhex(d["stream"].rstrip("."))
+    stream = burst_stream(*d["burst"]) if d.get("burst") else bytes.fromhex(d["stream"].rstrip("."))
     cuts = tuple(d.get("cuts", []))
     kinds = tuple(d.get("kinds") or ["bytes"])
     v = feed_segments(stream, cuts, kinds)
